@@ -247,6 +247,19 @@ func init() {
 				g.emit("pathinfo %d %d %d", h, l, uint64(0))
 				g.emit("pathinfo %d %d %d", h, l, uint64(1)<<uint(l)-1)
 			}
+			// prefixes with long runs of equal bits: 2^k, 2^k +- 1, two far-apart ones, for every k
+			for _, l := range []int{h, h - 1, (h + 9) / 2} {
+				if l < 1 || l > h {
+					continue
+				}
+				for k := 0; k < l; k++ {
+					for _, v := range []uint64{1 << uint(k), 1<<uint(k) + 1, 1<<uint(k) - 1, 1<<uint(l-1) | 1<<uint(k), (1<<uint(l) - 1) &^ (1 << uint(k))} {
+						if v < 1<<uint(l) && (g.thorough() || k%3 == 0 || k >= 15 && k <= 17) {
+							g.emit("pathinfo %d %d %d", h, l, v)
+						}
+					}
+				}
+			}
 		}
 	}
 
